@@ -62,9 +62,12 @@ CONSTANTS N,                    \* commits in the universe
           BitmapHonoursShallow, \* with a shallow boundary the bitmap provider traverses instead of using bitmaps
           CgOctopusOk,          \* the commit-graph writer keeps all parents of every merge with three or more
           MaxParents,           \* parents per commit
+          GraftsBeforeGraph,    \* graft points and the shallow file are consulted before the commit-graph
+          IdxLargeFrom31,       \* a v2/v3 pack index moves every offset >= 2^31 to its 64-bit table
           Focus                 \* "all", or a family of histories explored deeper with few actions:
                                 \* "refs" (ref storage), "bmp" (one reader packs and builds bitmaps), "octo"
-                                \* (merges of three parents and commit-graphs)
+                                \* (merges of three parents and commit-graphs), "graft" (graft points, shallow
+                                \* file and commit-graphs)
 
 VARIABLES n,        \* commits created so far: 1..n
           par,      \* [1..N -> SUBSET 1..N]   parents
@@ -73,13 +76,17 @@ VARIABLES n,        \* commits created so far: 1..n
           tref,     \* [Refs -> 0..N]          THE value of each ref (0 = absent): primary truth
           lref,     \* [Refs -> 0..N]          loose ref file
           pref,     \* [Refs -> 0..N]          packed-refs entry
+          graft,    \* [1..N -> SUBSET 1..N or NOGRAFT]  info/grafts: replacement parents (primary data)
+          shal,     \* SUBSET 1..N             the shallow file: commits whose parents are cut off (primary data)
           cg,       \* [on, commits, closed]
           midx,     \* [on, packs]
           bmp,      \* set of [at, for, sel]
           idxv,     \* 1 | 2
           act       \* the step that led here (history variable, hidden by VIEW view)
-vars == <<n, par, loose, packs, tref, lref, pref, cg, midx, bmp, idxv, act>>
-view == <<n, par, loose, packs, tref, lref, pref, cg, midx, bmp, idxv>>
+vars == <<n, par, loose, packs, tref, lref, pref, graft, shal, cg, midx, bmp, idxv, act>>
+view == <<n, par, loose, packs, tref, lref, pref, graft, shal, cg, midx, bmp, idxv>>
+gs   == <<graft, shal>>
+NOGRAFT == {N + 1}
 prim == <<n, par, loose, packs, tref, lref, pref>>
 
 Commits   == 1..n
@@ -128,7 +135,12 @@ T_Has(i)      == Present(i)
 T_Par(i)      == IF Present(i) THEN par[i] ELSE MISSING
 \* (ta is TAncFn, computed once by the caller)
 T_Anc(ta, H)  == IF H \subseteq PresentS THEN AncOf(ta, H) ELSE MISSING
-T_Mb(ta, i, j) == IF {i, j} \subseteq PresentS THEN Lca(TParFn, ta, i, j) ELSE MISSING
+\* EFFECTIVE parents (what Repo.get_parents, the walker and merge-base work with): a graft point replaces the
+\* parents recorded in the commit, a commit named by the shallow file has none
+T_EPar(i)     == IF graft[i] # NOGRAFT THEN graft[i] ELSE IF i \in shal THEN {} ELSE T_Par(i)
+T_EParFn      == Force([i \in 0..N |-> IF i = 0 THEN {} ELSE T_EPar(i)])
+T_Mb(i, j)    == IF {i, j} \subseteq PresentS THEN Lca(T_EParFn, AncFn(T_EParFn), i, j) ELSE MISSING
+T_Walk(i)     == Norm(AncFn(T_EParFn)[i])         \* the commits a history walk from i visits
 T_RC(ta, H, X) == IF H \cup X \subseteq PresentS THEN AncOf(ta, H) \ AncOf(ta, X) ELSE MISSING
 \* groups (every object of every such commit); commits that are not there are skipped, not an error
 T_RO(ta, H, X) == AncOf(ta, H \cap PresentS) \ AncOf(ta, X \cap PresentS)
@@ -177,14 +189,22 @@ Decode(b, S)  == IF b.for = b.at THEN Anc(S) \cap Objs(b.at) ELSE Objs(b.at) \ A
 \* everything a reader with accelerators A derives once: parents and ancestors of every commit, usable bitmaps
 View(A) ==
     LET p == Force([i \in 0..N |-> IF i = 0 THEN {} ELSE IF CgHit(A, i) THEN CgPar(i) ELSE T_Par(i)])
-    IN  [A |-> A, par |-> p, anc |-> AncFn(p), bm |-> {b \in bmp : Usable(A, b)}]
+        \* ParentsProvider.get_parents: grafts, shallow, commit-graph, commit object -- in this order
+        e == Force([i \in 0..N |->
+                 IF i = 0 THEN {}
+                 ELSE IF ~GraftsBeforeGraph /\ CgHit(A, i) THEN CgPar(i)
+                 ELSE IF graft[i] # NOGRAFT THEN graft[i]
+                 ELSE IF i \in shal THEN {}
+                 ELSE p[i]])
+    IN  [A |-> A, par |-> p, anc |-> AncFn(p), epar |-> e, eanc |-> AncFn(e), bm |-> {b \in bmp : Usable(A, b)}]
 
 W_Has(v, i)   == MidxHit(v.A, i) \/ Present(i)
 \* get_raw: the midx names a pack; a pack that is gone falls through to the normal lookup
 W_Get(v, i)   == Present(i)
-W_Par(v, i)   == v.par[i]
+W_Par(v, i)   == v.epar[i]
+W_Walk(v, i)  == Norm(v.eanc[i])
 W_Anc(v, H)   == Norm(AncOf(v.anc, H))
-W_Mb(v, i, j) == Lca(v.par, v.anc, i, j)
+W_Mb(v, i, j) == Lca(v.epar, v.eanc, i, j)
 \* walk from S along v.par, not expanding the commits in Stop (they are reported, not passed)
 RECURSIVE Walk(_, _, _, _)
 Walk(v, S, Stop, k) == IF k = 0 THEN S
@@ -229,9 +249,10 @@ W_MissS(v, Hv, W, Sh) ==
 \* (the answers are functions of the view and of primary data, so equal views need no comparison)
 Same(v, u) ==
     /\ \A i \in Commits : W_Has(v, i) = W_Has(u, i) /\ W_Get(v, i) = W_Get(u, i)
-    /\ v.par # u.par =>
-          /\ \A i \in Commits : W_Par(v, i) = W_Par(u, i)
+    /\ v.epar # u.epar =>
+          /\ \A i \in Commits : W_Par(v, i) = W_Par(u, i) /\ W_Walk(v, i) = W_Walk(u, i)
           /\ \A i, j \in Commits : i < j => W_Mb(v, i, j) = W_Mb(u, i, j)
+    /\ v.par # u.par =>
           /\ \A H \in Heads : W_Anc(v, H) = W_Anc(u, H)
     /\ (v.par # u.par \/ ("cg" \in v.A /\ cg.on) \/ v.bm # u.bm) =>
           \A W \in Singles, X \in Excl, Sh \in Singles : /\ W_Cut(v, W, X, Sh) = W_Cut(u, W, X, Sh)
@@ -246,8 +267,8 @@ Transparent == LET u == View({}) IN \A A \in (SUBSET OnKinds) \ {{}} : Same(View
 \* ... = the definition on primary data
 Exact ==
     LET u == View({})  ta == TAncFn IN
-    /\ \A i \in Commits : W_Has(u, i) = T_Has(i) /\ W_Par(u, i) = T_Par(i)
-    /\ \A i, j \in Commits : i < j => W_Mb(u, i, j) = T_Mb(ta, i, j)
+    /\ \A i \in Commits : W_Has(u, i) = T_Has(i) /\ W_Par(u, i) = T_EPar(i) /\ W_Walk(u, i) = T_Walk(i)
+    /\ \A i, j \in Commits : i < j => W_Mb(u, i, j) = T_Mb(i, j)
     /\ \A H \in Heads :
           /\ W_Anc(u, H) = T_Anc(ta, H)
           /\ \A X \in Excl : /\ W_RCs(u, H, X) = {T_RC(ta, H, X)}
@@ -269,10 +290,12 @@ TypeOK ==
     /\ loose \cap Packed = {}
     /\ \A i \in 1..N : par[i] \subseteq 1..(i - 1) /\ (i > n => par[i] = {})
     /\ Healthy
+    /\ shal \subseteq Commits /\ \A i \in 1..N : graft[i] = NOGRAFT \/ graft[i] \subseteq 1..(i - 1)
 
 -----------------------------------------------------------------------------
 Init == /\ n = 0 /\ par = [i \in 1..N |-> {}] /\ loose = {} /\ packs = {}
         /\ tref = [r \in Refs |-> 0] /\ lref = [r \in Refs |-> 0] /\ pref = [r \in Refs |-> 0]
+        /\ graft = [i \in 1..N |-> NOGRAFT] /\ shal = {}
         /\ cg = NoCg /\ midx = NoMidx /\ bmp = {} /\ idxv = 2 /\ act = <<"Init">>
 
 acc == <<cg, midx, bmp, idxv>>
@@ -281,15 +304,16 @@ Lvl == MaxDepth = 0 \/ TLCGet("level") <= MaxDepth
 FocusActs == CASE Focus = "refs" -> {"Commit", "SetRef", "DeleteRef", "PackRefs"}
                [] Focus = "bmp"  -> {"Commit", "PackLoose", "RepackD", "BuildBmp"}
                [] Focus = "octo" -> {"Commit", "BuildCg"}
+               [] Focus = "graft" -> {"Commit", "SetGraft", "SetShallow", "BuildCg", "CopyCg"}
                [] OTHER -> {}
-Allowed(a) == Focus = "all" \/ a \in FocusActs
+Allowed(a) == (Focus = "all" /\ a \notin {"SetGraft", "SetShallow"}) \/ a \in FocusActs
 Full == Focus = "all"
 
 \* ---- history growth.  how = "loose" (add_object) | "pack" (add_objects: arrives as a pack of its own)
 Commit(P, r, how) ==
-    /\ Lvl /\ act' = <<"Commit", P, r, how>> /\ n < N /\ Cardinality(P) <= MaxParents /\ P \subseteq PresentS
+    /\ Lvl /\ UNCHANGED gs /\ act' = <<"Commit", P, r, how>> /\ n < N /\ Cardinality(P) <= MaxParents /\ P \subseteq PresentS
     /\ Focus = "octo" => r = "a" /\ Cardinality(P) \in {0, 3}
-    /\ Focus = "bmp" => Cardinality(P) <= 1
+    /\ Focus \in {"bmp", "graft"} => Cardinality(P) <= 1
     /\ how = "pack" => Full /\ Cardinality(packs) < MaxPacks
     /\ n' = n + 1 /\ par' = [par EXCEPT ![n + 1] = P]
     /\ IF how = "loose" THEN loose' = loose \cup {n + 1} /\ UNCHANGED packs
@@ -297,34 +321,34 @@ Commit(P, r, how) ==
     /\ tref' = [tref EXCEPT ![r] = n + 1] /\ lref' = [lref EXCEPT ![r] = n + 1]
     /\ UNCHANGED <<pref, acc>>
 SetRef(r, c) ==
-    /\ Lvl /\ Allowed("SetRef") /\ act' = <<"SetRef", r, c>> /\ c \in PresentS /\ tref[r] # c
+    /\ Lvl /\ UNCHANGED gs /\ Allowed("SetRef") /\ act' = <<"SetRef", r, c>> /\ c \in PresentS /\ tref[r] # c
     /\ tref' = [tref EXCEPT ![r] = c] /\ lref' = [lref EXCEPT ![r] = c]
     /\ UNCHANGED <<n, par, loose, packs, pref, acc>>
 DeleteRef(r) ==
-    /\ Lvl /\ Allowed("DeleteRef") /\ act' = <<"DeleteRef", r>> /\ tref[r] # 0
+    /\ Lvl /\ UNCHANGED gs /\ Allowed("DeleteRef") /\ act' = <<"DeleteRef", r>> /\ tref[r] # 0
     /\ tref' = [tref EXCEPT ![r] = 0] /\ lref' = [lref EXCEPT ![r] = 0]
     /\ pref' = IF DeleteDropsPacked THEN [pref EXCEPT ![r] = 0] ELSE pref
     /\ UNCHANGED <<n, par, loose, packs, acc>>
 
 \* ---- maintenance
 PackRefs(w) ==
-    /\ Lvl /\ Allowed("PackRefs") /\ act' = <<"PackRefs", w>> /\ \E r \in Refs : lref[r] # 0
+    /\ Lvl /\ UNCHANGED gs /\ Allowed("PackRefs") /\ act' = <<"PackRefs", w>> /\ \E r \in Refs : lref[r] # 0
     /\ pref' = [r \in Refs |-> RefVal(r)] /\ lref' = [r \in Refs |-> 0]
     /\ UNCHANGED <<n, par, loose, packs, tref, acc>>
 PackLoose ==
-    /\ Lvl /\ Allowed("PackLoose") /\ act' = <<"PackLoose">> /\ loose # {} /\ Cardinality(packs) < MaxPacks
+    /\ Lvl /\ UNCHANGED gs /\ Allowed("PackLoose") /\ act' = <<"PackLoose">> /\ loose # {} /\ Cardinality(packs) < MaxPacks
     /\ packs' = packs \cup {<<loose, "d">>} /\ loose' = {}
     /\ UNCHANGED <<n, par, tref, lref, pref, acc>>
 \* dulwich repack(): everything into one pack; accelerator files are left alone (bitmaps of removed packs
 \* stay on disk as orphans and re-attach if a pack of that name comes back)
 RepackD ==
-    /\ Lvl /\ Allowed("RepackD") /\ act' = <<"RepackD">> /\ PresentS # {} /\ (packs # {<<PresentS, "d">>} \/ loose # {})
+    /\ Lvl /\ UNCHANGED gs /\ Allowed("RepackD") /\ act' = <<"RepackD">> /\ PresentS # {} /\ (packs # {<<PresentS, "d">>} \/ loose # {})
     /\ <<PresentS, "g">> \notin packs          \* (dulwich would keep the git-named twin: not modelled)
     /\ packs' = {<<PresentS, "d">>} /\ loose' = {}
     /\ UNCHANGED <<n, par, tref, lref, pref, acc>>
 \* dulwich garbage_collect(grace_period=None): unreachable objects go, the rest into one pack
 Gc ==
-    /\ Lvl /\ Allowed("Gc") /\ act' = <<"Gc">> /\ PresentS # {} /\ (loose # {} \/ packs # {<<Reach, "d">>})
+    /\ Lvl /\ UNCHANGED gs /\ Allowed("Gc") /\ act' = <<"Gc">> /\ PresentS # {} /\ (loose # {} \/ packs # {<<Reach, "d">>})
     /\ <<Reach, "g">> \notin packs             \* (dulwich would keep the git-named twin: not modelled)
     /\ packs' = (IF Reach = {} THEN {} ELSE {<<Reach, "d">>}) /\ loose' = {}
     /\ UNCHANGED <<n, par, tref, lref, pref, acc>>
@@ -332,7 +356,7 @@ Gc ==
 \* loose copies of packed objects pruned; the midx is deleted when it names a pack that existed; bitmaps of the
 \* old packs are deleted; -b writes a bitmap for the new pack
 RepackG(b) ==
-    /\ Lvl /\ Allowed("RepackG") /\ act' = <<"RepackG", b>> /\ Reach # {}
+    /\ Lvl /\ UNCHANGED gs /\ Allowed("RepackG") /\ act' = <<"RepackG", b>> /\ Reach # {}
     \* (not modelled: a foreign midx that already names the pack git is about to write -- git 2.39 then leaves the
     \* loose copies behind; and git refusing to work because a midx has offsets for other bytes under a pack's name)
     /\ ~(midx.on /\ <<Reach, "g">> \in midx.packs \ packs)
@@ -350,7 +374,7 @@ RepackG(b) ==
 \* mode: "all" dulwich write_commit_graph() (every commit in the store), "reach" from the ref tips
 \* (git commit-graph write --reachable / dulwich refs=tips), "tips" dulwich reachable=False
 BuildCg(w, mode) ==
-    /\ Lvl /\ Allowed("BuildCg") /\ act' = <<"BuildCg", w, mode>> /\ Tips # {} /\ (w = "git" => mode = "reach")
+    /\ Lvl /\ UNCHANGED gs /\ Allowed("BuildCg") /\ act' = <<"BuildCg", w, mode>> /\ Tips # {} /\ (w = "git" => mode = "reach" /\ shal = {} /\ \A i \in 1..N : graft[i] = NOGRAFT)
     /\ mode = "tips" => ~CgWriterCloses        \* a writer that closes the set makes "tips" the same as "reach"
     /\ LET C == CASE mode = "all" -> PresentS [] mode = "reach" -> Reach [] mode = "tips" -> Tips IN
        cg' = [on |-> TRUE, commits |-> IF CgWriterCloses THEN Anc(C) ELSE C,
@@ -360,42 +384,64 @@ BuildCg(w, mode) ==
 \* dulwich write_midx() indexes the packs present; git multi-pack-index write (2.39) also keeps every pack
 \* named by the midx it finds, whether or not that pack still exists
 BuildMidx(w) ==
-    /\ Lvl /\ Allowed("BuildMidx") /\ act' = <<"BuildMidx", w>> /\ packs # {}
+    /\ Lvl /\ UNCHANGED gs /\ Allowed("BuildMidx") /\ act' = <<"BuildMidx", w>> /\ packs # {}
     /\ midx' = [on |-> TRUE, packs |-> IF w = "git" /\ midx.on THEN packs \cup midx.packs ELSE packs]
     /\ midx' # midx
     /\ UNCHANGED <<prim, cg, bmp, idxv>>
 \* dulwich generate_pack_bitmaps(refs): every pack without an accepted bitmap gets one for the tips it holds
 BuildBmp ==
-    /\ Lvl /\ Allowed("BuildBmp") /\ act' = <<"BuildBmp">> /\ Tips # {} /\ packs # {}
+    /\ Lvl /\ UNCHANGED gs /\ Allowed("BuildBmp") /\ act' = <<"BuildBmp">> /\ Tips # {} /\ packs # {}
     /\ LET ok(p) == \E b \in bmp : b.at = p /\ (BitmapChecksum => b.for = p)
            new == {[at |-> p, for |-> p, sel |-> Tips \cap Objs(p)] : p \in {q \in packs : ~ok(q)}} IN
        /\ new # {}
        /\ bmp' = {b \in bmp : ok(b.at) \/ b.at \notin packs} \cup new
     /\ UNCHANGED <<prim, cg, midx, idxv>>
 Remove(k) ==
-    /\ Lvl /\ Allowed("Remove") /\ act' = <<"Remove", k>>
+    /\ Lvl /\ UNCHANGED gs /\ Allowed("Remove") /\ act' = <<"Remove", k>>
     /\ \/ k = "cg" /\ cg.on /\ cg' = NoCg /\ UNCHANGED <<midx, bmp>>
        \/ k = "midx" /\ midx.on /\ midx' = NoMidx /\ UNCHANGED <<cg, bmp>>
        \/ k = "bmp" /\ bmp # {} /\ bmp' = {} /\ UNCHANGED <<cg, midx>>
     /\ UNCHANGED <<prim, idxv>>
 \* files built elsewhere: the other repository is a fully packed clone holding every commit ever created
 CopyMidx(wo) ==
-    /\ Lvl /\ Allowed("CopyMidx") /\ act' = <<"CopyMidx", wo>> /\ WithCopies /\ n > 0 /\ midx # [on |-> TRUE, packs |-> {<<Commits, wo>>}]
+    /\ Lvl /\ UNCHANGED gs /\ Allowed("CopyMidx") /\ act' = <<"CopyMidx", wo>> /\ WithCopies /\ n > 0 /\ midx # [on |-> TRUE, packs |-> {<<Commits, wo>>}]
     /\ midx' = [on |-> TRUE, packs |-> {<<Commits, wo>>}]
     /\ UNCHANGED <<prim, cg, bmp, idxv>>
 CopyCg ==
-    /\ Lvl /\ Allowed("CopyCg") /\ act' = <<"CopyCg">> /\ WithCopies /\ n > 0 /\ cg # [on |-> TRUE, commits |-> Commits, closed |-> TRUE]
+    /\ Lvl /\ UNCHANGED gs /\ Allowed("CopyCg") /\ act' = <<"CopyCg">> /\ WithCopies /\ n > 0 /\ cg # [on |-> TRUE, commits |-> Commits, closed |-> TRUE]
     /\ cg' = [on |-> TRUE, commits |-> Commits, closed |-> TRUE]
     /\ UNCHANGED <<prim, midx, bmp, idxv>>
 \* the bitmap of pack p renamed to sit next to pack q
 CopyBmp(p, q) ==
-    /\ Lvl /\ Allowed("CopyBmp") /\ act' = <<"CopyBmp", p, q>> /\ WithCopies /\ p # q /\ q \in packs
+    /\ Lvl /\ UNCHANGED gs /\ Allowed("CopyBmp") /\ act' = <<"CopyBmp", p, q>> /\ WithCopies /\ p # q /\ q \in packs
     /\ \E b \in bmp : /\ b.at = p /\ b.for = p
                       /\ bmp' = {x \in bmp : x.at # q} \cup {[at |-> q, for |-> p, sel |-> b.sel]}
     /\ UNCHANGED <<prim, cg, midx, idxv>>
 Reindex(w, v) ==
-    /\ Lvl /\ Allowed("Reindex") /\ act' = <<"Reindex", w, v>> /\ WithIdx /\ packs # {} /\ idxv # v /\ idxv' = v
+    /\ Lvl /\ UNCHANGED gs /\ Allowed("Reindex") /\ act' = <<"Reindex", w, v>> /\ WithIdx /\ packs # {} /\ idxv # v /\ idxv' = v
     /\ UNCHANGED <<prim, cg, midx, bmp>>
+
+\* ---- graft points and the shallow file (primary data: they change what the history IS)
+SetGraft(c, P) ==
+    /\ Lvl /\ Allowed("SetGraft") /\ act' = <<"SetGraft", c, P>>
+    /\ c \in PresentS /\ graft[c] = NOGRAFT /\ P \subseteq PresentS \cap 1..(c - 1) /\ Cardinality(P) <= 1 /\ P # par[c]
+    /\ graft' = [graft EXCEPT ![c] = P]
+    /\ UNCHANGED <<n, par, loose, packs, tref, lref, pref, shal, acc>>
+SetShallow(c) ==
+    /\ Lvl /\ Allowed("SetShallow") /\ act' = <<"SetShallow", c>>
+    /\ c \in PresentS \ shal /\ par[c] # {}
+    /\ shal' = shal \cup {c}
+    /\ UNCHANGED <<n, par, loose, packs, tref, lref, pref, graft, acc>>
+
+\* ---- pack index versions and large offsets (no state: a property of the three formats).  An offset is small
+\* (< 2^31), mid (2^31 .. 2^32 - 1) or big (>= 2^32).  v1 stores 32 bits; v2/v3 store 31 bits inline and use the
+\* top bit to point into a table of 64-bit offsets.
+OffClass == {"small", "mid", "big"}
+IdxStores(v, c) == IF v = 1 THEN (IF c = "big" THEN "refused" ELSE "inline")
+                   ELSE IF c = "small" THEN "inline"
+                   ELSE IF c = "mid" /\ ~IdxLargeFrom31 THEN "inline" ELSE "table"
+IdxReads(v, c)  == IF v # 1 /\ IdxStores(v, c) = "inline" /\ c # "small" THEN "garbage" ELSE c   \* top bit read as flag
+IdxTransparent  == n \in 0..N /\ \A v \in 1..3, c \in OffClass : IdxStores(v, c) # "refused" => IdxReads(v, c) = c
 
 Writers == {"dulwich", "git"}
 Next ==
@@ -413,6 +459,8 @@ Next ==
     \/ CopyCg
     \/ \E p, q \in ((SUBSET (1..N)) \ {{}}) \X {"d", "g"} : CopyBmp(p, q)
     \/ \E w \in Writers, v \in {1, 2} : Reindex(w, v)
+    \/ \E c \in 1..N, P \in SUBSET (1..N) : SetGraft(c, P)
+    \/ \E c \in 1..N : SetShallow(c)
 
 Spec == Init /\ [][Next]_vars
 =============================================================================
